@@ -7,6 +7,7 @@ import StepModel.ComplexForestAgree
 import StepModel.ComplexInitLemmas
 import StepModel.ComplexAccept
 import StepModel.ComplexOrFreeTop
+import StepModel.ComplexTerm2
 /-!
 # C08 — complex instances are accepted exactly when the supertype constraints allow them
 
@@ -124,6 +125,24 @@ example : ∀ b, supports [.and [.simple 0, .and [.simple 1, .andor [.simple 2, 
   fun b => C08_sound_complete_partial _ (by
     intro h hh; simp only [List.mem_singleton] at hh; subst hh
     exact ⟨by decide, by decide, by decide, _, _, rfl⟩) _ b
+
+-- ------------------------------------------------------------------ termination of the retry loop (the odometer of OR choices)
+/-- **The odometer.**  `tryNext` never changes a `viable` value nor the shape of the hierarchy, and whenever it reports
+NEWCHOICE or MATCHALL the `choice` fields of the OrLists, read as one mixed-radix number `val` (an OrList more significant
+than what lies below it, an earlier sibling more significant than a later one), have grown.  Hypothesis `smallOr`: every
+OrList has fewer children than `LISTEND` — without it `choice + 1` can *be* LISTEND and `acceptChoice` starts over at
+`choice1` (the real matcher then loops forever: fixes/C08-3). -/
+theorem C08_odometer (f : Nat) (t : ST) (es : Ents) (r : ST × Ents × MT) (h : tryNext f t es = .ok r)
+    (hs : smallOr (skel t)) : skel r.1 = skel t ∧ (Moved r.2.2 → val t < val r.1) :=
+  (trynext_val f).1 t es r h hs
+
+/-- **Termination of the retry loop of `ComplexList::matches`** (`while( otherChoices == NEWCHOICE )`): with fuel at
+least the number of choice combinations `cap` plus one walk through the hierarchy (`2·sz + 2`), `retry` does not run
+out of fuel — the loop ends after at most `cap − val` rounds, for every hierarchy (with any nesting of OrLists, any
+marks, any stored `viable` values) whose OrLists are shorter than `LISTEND`. -/
+theorem C08_retry_terminates (combo : Bool) (f : Nat) (head : ST) (es : Ents) (hs : smallOr (skel head))
+    (hf : cap (skel head) + 2 * sz (skel head) + 2 ≤ f) : retry f combo head es ≠ .outOfFuel :=
+  retry_terminates combo (cap (skel head)) f head es hs (Nat.sub_le _ _) hf
 
 -- ------------------------------------------------------------------ the tree construction is right (induction on the expression)
 /-- **Every nesting of ONEOF/AND/ANDOR, every kind of parent list** (supertype head, AND, ANDOR, OR — with and without
